@@ -24,7 +24,7 @@ use rustc_middle::mir::{
     StatementKind, TerminatorKind, UnwindAction,
 };
 use rustc_middle::ty::print::PrintTraitRefExt;
-use rustc_middle::ty::{self, GenericArgsRef, Instance, Ty, TyCtxt, TypingEnv};
+use rustc_middle::ty::{self, GenericArgsRef, Instance, Ty, TyCtxt, TypeVisitableExt, TypingEnv};
 use rustc_span::{ExpnKind, Span};
 use std::fmt::Write as _;
 
@@ -798,10 +798,16 @@ impl<'tcx> Cx<'tcx> {
                 DefKind::Const { .. } | DefKind::AssocConst { .. } => {
                     let ty = tcx.type_of(def_id).instantiate_identity().skip_norm_wip();
                     let generics = tcx.generics_of(def_id);
+                    // an array length written as an expression (`[u8; Self::N as usize]`) is an unevaluated constant in the
+                    // declared type: the value printer needs it evaluated
+                    let nty = tcx
+                        .try_normalize_erasing_regions(TypingEnv::post_analysis(tcx, def_id), rustc_middle::ty::Unnormalized::new_wip(ty))
+                        .unwrap_or(ty);
+                    let pty = if ty.has_aliases() { nty } else { ty };
                     let mut val = None;
-                    if generics.count() == 0 && generics.parent_count == 0 {
+                    if generics.count() == 0 && generics.parent_count == 0 && !pty.has_aliases() {
                         if let Ok(v) = tcx.const_eval_poly(def_id) {
-                            val = Some(format!("{}", Const::Val(v, ty)));
+                            val = Some(format!("{}", Const::Val(v, pty)));
                         }
                     }
                     // tables of string literals (`&[&str; N]`): decode the strings
